@@ -229,10 +229,14 @@ static void ts_lexer__do_advance(Lexer *self, bool skip) {
     }
     if (self->current_included_range_index < self->included_range_count) {
       current_range++;
-      self->current_position = (Length) {
-        current_range->start_byte,
-        current_range->start_point,
-      };
+      // An empty range contains no text: step over it without moving there, so
+      // that a token (or the end of input) is not placed at its position.
+      if (current_range->end_byte > current_range->start_byte) {
+        self->current_position = (Length) {
+          current_range->start_byte,
+          current_range->start_point,
+        };
+      }
     } else {
       current_range = NULL;
       break;
